@@ -89,6 +89,10 @@ theorem C15_stranded_forever_on_pinned : ∀ s s' a, step Skeleton.pinned s a = 
     (s'.calls c).pc = .returned ∧ s'.waiters c = .have r :=
   fun _ _ a hs c r hp hw => stranded_forever _ (by decide) a hs c r hp hw
 
+/-- No goroutine stays parked in a release after the link ended: The release function `registerClosure` returns runs DEFERRED on every exit path of a closure-carrying call; it only locks, deletes and unlocks — no wait, channel operation or select (checked against the regenerated skeleton) — and the lock it takes is not held while a closure body runs. -/
+theorem C15_closure_release_never_waits :
+    Skeleton.current.clFreeNeverWaits = true ∧ Skeleton.current.clInvokeOutsideLock = true := by decide
+
 end Panrpc.Ep
 
 #print axioms Panrpc.Ep.C15_waiter_can_always_exit
@@ -98,3 +102,4 @@ end Panrpc.Ep
 #print axioms Panrpc.Ep.C15_all_exited_table_empty
 #print axioms Panrpc.Ep.C15_waiter_stranded_on_pinned
 #print axioms Panrpc.Ep.C15_stranded_forever_on_pinned
+#print axioms Panrpc.Ep.C15_closure_release_never_waits
